@@ -153,6 +153,10 @@ class C13(Property):
             lst = cm.number({"k": "l", "name": "l", "member": {"k": "s", "name": None}, "kids": [_leaf(None) for _ in range(4)]})
             h = [{"at": [], "op": "pop", "i": i}]
             out.append(self._case(cm.simulate(lst, h), [0], lst, h))
+        # seeded mutation C14-root-lazy-property: an element queried while detached, then grafted, must resolve
+        # absolute paths (its own fq_name too) against the tree it is in NOW
+        for case in cm.root_lazy_demo_cases():
+            out.append(self._case(case["tree"], case["starts"], case["init"], case["history"]))
         # open KF-C13-c (= the KF-C10-a state): SparseDict item assignment of an instance of a renamed subclass
         sdn = {"k": "d", "name": "sd", "sparse": [{"k": "s", "name": "z"}],
                "fields": [{"k": "s", "name": "x"}, {"k": "s", "name": "z"}], "kids": [_leaf("x")]}
@@ -214,6 +218,9 @@ class C13(Property):
             if len(nodes) > 60:
                 continue
             starts = [tree["id"]] + [rng.choice(nodes)["id"] for _ in range(3)]
+            # elements that were queried while still detached and grafted afterwards are start elements too
+            present = {x["id"] for x in nodes}
+            starts += [i for i in cm.grafted_ids(history) if i in present][:3]
             yield self._case(tree, sorted(set(starts)), init, history)
 
     # -------------------------------------------------------------- implementation
@@ -319,7 +326,11 @@ class C13(Property):
         t.append("history=%d" % len(hist))
         for op in hist:
             t.append("listop:%s" % op["op"])
-            if op["op"] == "setfield":
+            if op.get("detached"):
+                t.append("listop:graft-detached-element")
+                if op.get("pre"):
+                    t.append("listop:queried-before-graft")
+            if op["op"] in ("setfield", "query"):
                 continue
             if op.get("i", 0) < -1:
                 t.append("listop:negative-index")
@@ -364,7 +375,10 @@ C13.rule = (
     "of trees only use names the theorem covers; 45% of the trees are reached through a history of 1-4 list mutations "
     "(pop incl. negative indexes, insert, del item/slice incl. extended and negative-step slices, slice assignment, "
     "reverse, sort, remove, +=, append on random List nodes at any depth, and SparseDict item assignment of an instance "
-    "of a renamed subclass of the field schema, through the public API; the model sees "
+    "of a renamed subclass of the field schema, through the public API; paths are evaluated from random elements in "
+    "between, and half of the inserted members are built as free-standing elements, queried (absolute and relative "
+    "paths, from inside them) and only then grafted as Element objects (append/insert/slice/item assignment/+=), and "
+    "are start elements of the final evaluation; the model sees "
     "the resulting tree, whose slot names are positional); every element's fq_name() is evaluated from the root and 3 random "
     "elements; non-trivial = tree of >= 3 elements")
 
